@@ -188,6 +188,16 @@ impl Axecutor {
                         segment.p_offset,
                     );
 
+                    // The emulator targets a 32-bit address space (wasm32): a segment that reaches 4 GiB once
+                    // rounded up to the page size cannot be loaded, and its size must not be used for an
+                    // allocation or for address arithmetic
+                    if segment.p_memsz > u32::MAX as u64 - 0xfff {
+                        return Err(AxError::from(format!(
+                            "ELF: segment at {:#x} is too large (memory size {:#x})",
+                            segment.p_vaddr, segment.p_memsz
+                        )));
+                    }
+
                     let memsz = round_up_to_page_size(segment.p_memsz);
 
                     if memsz == segment.p_filesz {
